@@ -25,6 +25,10 @@ import (
 
 // c14Domains: every field ranges over {"" where stateless validation allows it, v1, v2}; the same values are
 // used across types on purpose, so that messages of different types have as many equal fields as possible.
+// a description longer than anything a signing device displays, and the label an abbreviating sign doc would show for it
+var c14Long = strings.Repeat("d", 300)
+var c14LongLabel = func() string { h := sha256.Sum256([]byte(c14Long)); return "sha256:" + hex.EncodeToString(h[:]) }()
+
 func c14Domains(e *domEnv) []*msgDom {
 	A, B, W, F := e.A.Bech, e.B.Bech, e.W.Bech, e.F.Bech
 	sv := func(name string, set strSetter, vals ...string) fdom {
@@ -62,13 +66,13 @@ func c14Domains(e *domEnv) []*msgDom {
 	var ds []*msgDom
 	ds = append(ds, &msgDom{Name: "aol.MsgCreateTopicRequest", New: func() sdk.Msg { return &aoltypes.MsgCreateTopicRequest{} }, Fields: []fdom{
 		sv("topic_name", func(m sdk.Msg, v string) { m.(*aoltypes.MsgCreateTopicRequest).TopicName = v }, "a", "b"),
-		sv("description", func(m sdk.Msg, v string) { m.(*aoltypes.MsgCreateTopicRequest).Description = v }, "", "x", "y", " x", "x ", "x\n", "\tx", "a\xffb", "a\xfeb"),
+		sv("description", func(m sdk.Msg, v string) { m.(*aoltypes.MsgCreateTopicRequest).Description = v }, "", "x", "y", " x", "x ", "x\n", "\tx", "a\xffb", "a\xfeb", c14Long, c14LongLabel), // ... and a long text with the digest label a sign doc might abbreviate it to
 		sv("owner_address", func(m sdk.Msg, v string) { m.(*aoltypes.MsgCreateTopicRequest).OwnerAddress = v }, A, B),
 	}})
 	ds = append(ds, &msgDom{Name: "aol.MsgAddWriterRequest", New: func() sdk.Msg { return &aoltypes.MsgAddWriterRequest{} }, Fields: []fdom{
 		sv("topic_name", func(m sdk.Msg, v string) { m.(*aoltypes.MsgAddWriterRequest).TopicName = v }, "a", "b"),
 		sv("moniker", func(m sdk.Msg, v string) { m.(*aoltypes.MsgAddWriterRequest).Moniker = v }, "", "x", "y"),
-		sv("description", func(m sdk.Msg, v string) { m.(*aoltypes.MsgAddWriterRequest).Description = v }, "", "x", "y", " x", "x\n", "a\xffb", "a\xfeb"), // + byte strings that are not UTF-8
+		sv("description", func(m sdk.Msg, v string) { m.(*aoltypes.MsgAddWriterRequest).Description = v }, "", "x", "y", " x", "x\n", "a\xffb", "a\xfeb", c14Long, c14LongLabel), // + byte strings that are not UTF-8, long text + its digest label
 		sv("writer_address", func(m sdk.Msg, v string) { m.(*aoltypes.MsgAddWriterRequest).WriterAddress = v }, W, B),
 		sv("owner_address", func(m sdk.Msg, v string) { m.(*aoltypes.MsgAddWriterRequest).OwnerAddress = v }, A, B),
 	}})
